@@ -900,6 +900,9 @@ def run(res):
     for s, bad in pred_fail:
         if any(t in bad[1] for t in tested):
             tested_fail += 1
+    # the copy which read repair writes to a backup owner is the entry which was read (the layouts of C05, ReadRepair on)
+    import c05
+    evals += c05.rr_part(res, PID)
     sample = next((s for s in scs if s["kind"] == "cluster" and s.get("_cfg") == "r1small"), scs[-1])
     res.coverage.update({
         "evaluations": evals, "distinct_nontrivial": len(nt),
@@ -936,6 +939,15 @@ def replay(res, path):
     ok, out = vlib.harness_build()
     if not ok:
         raise vlib.CheckError(out)
+    if obj.get("part") == "read-repair":
+        import c05
+        ob = c05.run_one(sc)
+        bad = c05.check(sc, ob)
+        print(json.dumps({"impl_trace": ob, "predicate": bad}, indent=1)[:6000])
+        if bad:
+            print("VIOLATION property=%s replay=%s" % (res.pid, path))
+            return 1
+        return 0
     rr = run_impl([dict(sc, id=0)]).get(0)
     bad = check(sc, rr)
     print(json.dumps({"impl_trace": (rr or {}).get("obs"), "predicate": bad}, indent=1)[:6000])
